@@ -139,8 +139,9 @@ class History:
     """Walks a decoded run, keeps what a careful observer of the program would know, and evaluates the property
     clauses of C01-C08 on it.  Nothing here consults the Coq model."""
 
-    def __init__(self, steps):
+    def __init__(self, steps, real=False):
         self.steps = steps
+        self.real = real            # history from a real (unstepped) loop: no ready-queue / timer view
         self.viol: dict[str, list[str]] = {}
         self.flags: set[str] = set()
 
@@ -265,7 +266,7 @@ class History:
                         completions.append((t, op0, res, snap0, hb0))
                     elif op0[0] == S.START:
                         start_joining.add(t)
-            elif c == S.RUNDELIVER:
+            elif c == S.RUNDELIVER and not self.real:
                 if a in exited and (3000 + a) in snap["ready"] and snap["ready"].count(3000 + a) >= prev["ready"].count(3000 + a):
                     self.v("C05", f"step {i}: delivery callback of scope {a} re-scheduled itself although the scope was left at step {exited[a]}")
             elif c == S.RUNTASKDONE:
@@ -326,8 +327,11 @@ class History:
                     if got != exp:
                         self.v("C06", f"step {i}: current_effective_deadline() = {got} but the reference says {exp}")
 
-            self.check_delivery_alive(snap, i)
-            self.check_timers(prev, snap, op, i, explicit_cancel)
+            if self.real:
+                self.check_not_stuck(prev, snap, op, i)
+            else:
+                self.check_delivery_alive(snap, i)
+                self.check_timers(prev, snap, op, i, explicit_cancel)
             for tt, n in native_out.items():
                 tk = snap["tasks"].get(tt)
                 if tk is not None and tk["state"] < 3 and n > 0:
@@ -505,6 +509,19 @@ class History:
                 c = sc["parent"]
                 seen += 1
 
+    def check_not_stuck(self, prev, snap, op, i):
+        """Real-loop mode (every snapshot is taken after the loop ran >= 8 full cycles): a task blocked in an
+        effectively cancelled scope across two consecutive snapshots was not interrupted within the bound."""
+        for t, tk in snap["tasks"].items():
+            pk = prev["tasks"].get(t)
+            if pk is None or tk["state"] != 2 or pk["state"] != 2 or tk["cur"] != pk["cur"] or not tk["cur"]:
+                continue
+            if op[1] == t:
+                continue
+            if ref_eff_cancelled(snap, tk["cur"]) and ref_eff_cancelled(prev, pk["cur"]):
+                self.flags.add("blocked_in_cancelled_scope_seen")
+                self.v("C03", f"step {i}: task {t} stayed blocked in scope {tk['cur']}, which is effectively cancelled, for more than 8 event-loop cycles")
+
     # ---------- C06: timers ----------
     def check_timers(self, prev, snap, op, i, explicit_cancel):
         now = snap["now"]
@@ -534,8 +551,8 @@ class History:
                         self.v("C06", f"step {i}: timeout of scope {c} fired after the scope was left")
 
 
-def analyse(ops, outs):
-    h = History(decode_run(ops, outs))
+def analyse(ops, outs, real=False):
+    h = History(decode_run(ops, outs), real=real)
     h.run()
     return h
 
